@@ -22,6 +22,7 @@ inductive BExpr where
   | and (a b : BExpr)
   | or (a b : BExpr)
   | not (a : BExpr)
+  | ite (c a b : BExpr)          -- `a if c else b`
   | other (src : String)
   deriving DecidableEq, Repr
 
@@ -48,6 +49,7 @@ def BExpr.eval (dec : Bool) (o : Ord3) : BExpr → Option Bool
   | .and a b => do pure ((← a.eval dec o) && (← b.eval dec o))
   | .or a b => do pure ((← a.eval dec o) || (← b.eval dec o))
   | .not a => do pure (!(← a.eval dec o))
+  | .ite c a b => do if (← c.eval dec o) then a.eval dec o else b.eval dec o
   | .other _ => none
 
 /-- the model's `beats` on the three-way abstraction -/
@@ -61,6 +63,8 @@ def ord3 {S : Type} (le : S → S → Bool) (s t : S) : Ord3 :=
 
 inductive Cond where
   | tpNonzero | sumZero | refZero | predZero | bothPos
+  | tt                              -- a final `else`
+  | not (a : Cond) | and (a b : Cond) | or (a b : Cond)
   | other (src : String)
   deriving DecidableEq, Repr
 
@@ -77,6 +81,12 @@ def Cond.eval (tpZ pZ rZ : Bool) : Cond → Option Bool
   | .refZero => some rZ
   | .predZero => some pZ
   | .bothPos => some (!pZ && !rZ)
+  | .tt => some true
+  | .not a => (a.eval tpZ pZ rZ).map (!·)
+  | .and a b => match a.eval tpZ pZ rZ, b.eval tpZ pZ rZ with
+    | some x, some y => some (x && y) | _, _ => none
+  | .or a b => match a.eval tpZ pZ rZ, b.eval tpZ pZ rZ with
+    | some x, some y => some (x || y) | _, _ => none
   | .other _ => none
 
 /-- first branch whose condition holds (`none`: a condition outside the embedding, or fall-through) -/
